@@ -78,7 +78,7 @@ class _Builder:
             k = self.draw(st.integers(0, len(pool)))
             if k == len(pool):
                 h = self.draw(st.integers(1, 5))
-                contig = "%s#%d#%s.ctg%d" % (self.draw(st.sampled_from(["HG002", "NA1_2", "hap-A"])), h, chrom["name"],
+                contig = "%s#%d#%s.ctg%d" % (self.draw(st.sampled_from(["HG002", "NA1_2", "hap-A", "NA,3"])), h, chrom["name"],
                                              self.draw(st.integers(0, 1)))  # PanSN style: HG002#1#ctg0 and HG002#2#ctg0 are different contigs
                 while contig in self.hap_cursor:
                     contig = contig.replace("#%d#" % h, "#%d#" % (h + 1), 1)
@@ -176,6 +176,18 @@ class _Builder:
                     self.link(a, oa, b, ob)
                     chrom["features"].append("cycle")
             prev = nxt
+        if getattr(self, "tips", False) and len(chrom["ref"]) >= 2:
+            # a haplotype that extends beyond an end of the reference contig: a segment linked only to the first / last
+            # reference segment. The chain stays linear; its terminal element is a bubble without any reference node.
+            for end in (0, 1):
+                if self.draw(st.integers(0, 2)) == 0:
+                    t = self.add_hap(chrom)
+                    if end == 0:
+                        self.link(t, "+", chrom["ref"][0], "+")
+                    else:
+                        self.link(prev, "+", t, "+")
+                    chrom["bubbles"] += 1
+                    chrom["features"].append("end_tip")
         self.chroms.append(chrom)
         return chrom
 
@@ -202,7 +214,7 @@ def rgfa(draw, min_chroms=1, max_chroms=2, max_elements=5, max_ln=9, min_element
     start = draw(st.sampled_from([0, 0, 6, 95, 996]))
     # segment names are arbitrary non-blank strings: also ids with '.', '-' and '#'
     b = _Builder(draw, rnd, [draw(st.sampled_from(["s", "s", "s", ""])),  # "" = purely numeric ids, as vg / odgi / pggb write them
-                             draw(st.sampled_from(["utg", "n", "s0", "s1.", "ctg-", "n#", "b"]))], start, max_ln)
+                             draw(st.sampled_from(["utg", "n", "s0", "s1.", "ctg-", "n#", "b", "s,", "u=", "t;"]))], start, max_ln)
     b.cycles = cycles
     nchrom = draw(st.integers(min_chroms, max_chroms))
     names = draw(st.permutations(["chr1", "chr2", "chrX", "chr10_alt", "chr1.mat", "chr1.pat"]))[:nchrom]
